@@ -237,6 +237,15 @@ def check_reuse(gen, nparams, shift, arg):
     try:
         g = make()
         first = [list(map(float, r)) for r in g.generate()]
+        # another generator object of the same class with other parameters is used in between (no state may be shared)
+        ps_other = grid_params(max(1, nparams - 1) if gen not in ("bb",) else nparams + 1, shift + 3)
+        ps_saved, ps[:] = list(ps), ps_other
+        try:
+            other = make()
+        finally:
+            ps[:] = ps_saved
+        other.parameters = ps_other
+        other.generate()
         r1 = g.generate()
         for row in r1:
             for i in range(len(row)):
